@@ -11,7 +11,8 @@ CONTROLS = os.path.join(VERIF, "fixtures", "controls")
 _cg = {}
 
 
-def program(ctx, config="default"):
+def program(ctx, config=None):
+    config = config or os.environ.get("JBV_CONFIG") or "default"
     p = facts.load(config)
     ctx.units.setdefault("configs", {})[config] = {
         "bodies": len(p.bodies), "adts": len(p.adts), "impls": len(p.impls),
